@@ -16,12 +16,15 @@ def stateless_cfg(rnd):
         c['split'] = '.arr'; c['select'] = rnd.sample(['^.k=pk', '^.a=pa', '.=item', '(size ^.arr)=n', '^=parent'], rnd.randint(1, 3))
     if rnd.random() < 0.25:
         # the regular-expression cache is the only shared mutable state
-        c['cache'] = rnd.choice([1, 2, 64]); c['select'] = c['select'] + [rnd.choice(['(match .s .p)=m', '(extract_regex_group .s .p 0)=g'])]
+        # both regex functions, often on the same pattern in one run: a shared cache entry must mean the same for both
+        c['cache'] = rnd.choice([1, 2, 64]); c['select'] = c['select'] + rnd.choice([['(match .s .p)=m'], ['(extract_regex_group .s .p 0)=g'], ['(match .s .p)=m', '(extract_regex_group .s .p 0)=g'], ['(extract_regex_group .s .p 0)=g', '(match .s .p)=m'],
+                                                                                        # which of the two functions meets a pattern first depends on the record
+                                                                                        ['(? .flag (match .s .p) (extract_regex_group .s .p 0))=r'], ['(? (= .a 1) (extract_regex_group .s .p 0) (match .s .p))=r', '(match .k .p)=mk']])
     return c
 
 # patterns incl. strings that collide under weak string hashes (h*31+c)
-PATS = ['Aa', 'BB', 'AaAa', 'BBBB', 'AaBB', 'BBAa', 'a.', '^x', 'b+', 'C#', 'Bb', 'x$', '[', 'B', 'A']
-SUBJ = ['xBBx', 'xAax', 'AaBB', 'abc', 'xbz', '', 'C#Bb']
+PATS = ['Aa', 'BB', 'AaAa', 'BBBB', 'AaBB', 'BBAa', 'a.', '^x', 'b+', 'C#', 'Bb', 'x$', '[', 'B', 'A', 'a.b', '^b', 'x.$', '(?i)a.b', 'A.B']
+SUBJ = ['xBBx', 'xAax', 'AaBB', 'abc', 'xbz', '', 'C#Bb', 'a\nb', 'x\n', 'A\nB\nb']
 def regex_record(rnd):
     r = gen.record(rnd); r['s'] = rnd.choice(SUBJ); r['p'] = rnd.choice(PATS); return r
 
@@ -43,6 +46,14 @@ def run(ctx):
             cfg = lib.new_cfg(set=['@city=.address.city', '@deep=(get (get . "x") "y")', 'zero=0'], select=['@city=c', '@deep=d', '(+ .a :zero)=a', '(take .arr 1)=t'])
             A = [rnd.choice([{'a': j}, {'a': j, 'arr': []}, {'name': 'n%d' % j}, j, 'x']) for j in range(rnd.choice([70, 130, 260]))]
             B = [{'a': 1, 'address': {'city': 'c%d' % j}, 'x': {'y': j}, 'arr': [j, 2]} for j in range(3)]
+        if i % 12 == 7:
+            # the two regex functions on one literal pattern, chosen per record, subjects with line breaks, cache on: the meaning of
+            # the pattern for one function must not depend on which function met it first
+            pat = rnd.choice(['^a.b$', 'a.b', '(?s)a.b', 'x.$', '^.$', 'A.B', '[^x]b'])
+            cfg = lib.new_cfg(cache=rnd.choice([1, 8, 64]), select=['.f=f', '(? (= .f "m") (match .s "%s") (extract_regex_group .s "%s" 0))=r' % (pat, pat)])
+            mk = lambda f: {'f': f, 's': rnd.choice(['a\nb', 'a-b', 'x\n', 'A\nB', '\n', 'ab', 'a\r\nb'])}
+            A = [mk(rnd.choice('mme')) for _ in range(rnd.randint(1, 4))]; B = [mk(rnd.choice('eem')) for _ in range(rnd.randint(1, 4))]
+            if rnd.random() < 0.5: A = [mk('m') for _ in A]; B = [mk('e') for _ in B]
         perm = list(A + B); rnd.shuffle(perm)
         da, db, dab = gen.stream(A), gen.stream(B), gen.stream(A + B)
         cases += [mkcase('A%d' % i, cfg, da), mkcase('B%d' % i, cfg, db), mkcase('C%d' % i, cfg, dab)]
